@@ -465,6 +465,8 @@ func checkC01(c *Ctx, r *Report) {
 
 	// role byte agreement with RAKP Message 1 byte 24
 	checkRoleByteWire(c, r)
+	// usernames of exactly 16 bytes are sent, longer ones refused (rule shared with C06)
+	checkUsernameGuard(c, r)
 	// "its response is returned to the caller": the confidentiality pad of a reply of any length is
 	// found where the BMC put it (rule shared with C04)
 	checkPadValidated(c, r)
